@@ -25,10 +25,11 @@ import (
 	"verif/mc/corpus"
 )
 
-func runPlugin(bin string, fd *descriptorpb.FileDescriptorProto, param string) (*pluginpb.CodeGeneratorResponse, error) {
+func runPlugin(bin string, fds []*descriptorpb.FileDescriptorProto, param string) (*pluginpb.CodeGeneratorResponse, error) {
+	fd := fds[len(fds)-1]
 	req := &pluginpb.CodeGeneratorRequest{
 		FileToGenerate:  []string{fd.GetName()},
-		ProtoFile:       []*descriptorpb.FileDescriptorProto{fd},
+		ProtoFile:       fds,
 		CompilerVersion: &pluginpb.Version{Major: proto.Int32(3), Minor: proto.Int32(21), Patch: proto.Int32(12)},
 	}
 	if param != "" {
@@ -90,8 +91,7 @@ func cmdPB(args []string) {
 			if !spec.For(rt) {
 				continue
 			}
-			fd := corpus.Build(spec, rt)
-			resp, err := runPlugin(pluginFor(rt, *plugins), fd, "paths=source_relative")
+			resp, err := runPlugin(pluginFor(rt, *plugins), corpus.BuildWithDeps(spec, rt), "paths=source_relative")
 			must(err)
 			if resp.Error != nil {
 				must(fmt.Errorf("%s/%s: third-party generator error: %s", rt, spec.Name, trunc(resp.GetError(), 500)))
@@ -157,7 +157,7 @@ func cmdFM(args []string) {
 				param += "," + *opts
 			}
 			st := Status{Runtime: rtn, File: spec.Name, Opts: param}
-			resp, err := runPlugin(*plugin, corpus.Build(spec, rt), param)
+			resp, err := runPlugin(*plugin, corpus.BuildWithDeps(spec, rt), param)
 			switch {
 			case err != nil:
 				st.Error = trunc(err.Error(), 700)
